@@ -373,6 +373,8 @@ class Interp:
             return True
         if isinstance(v, Lazy):
             raise Unsupported(v.why)
+        if type(v).__name__ == 'SymRange':
+            return self.branch(sx.lift_int(v.start) < sx.lift_int(v.stop))
         return bool(v)
 
     def raise_exc(self, clsname, msg='', site=None):
